@@ -15,7 +15,7 @@ try:
     ex.run(lambda ctx: getattr(mod, c.fn)(ctx, **c.params))
 except core.Inconclusive as e:
     print('INCONCLUSIVE', type(e).__name__, e)
-print(name, ex.stats.as_dict(), round(time.time() - t, 2))
+print(name, ex.stats.as_dict(), round(time.time() - t, 2)); print("ERRORS", ex.errors[:3])
 seen = set()
 for cx in ex.cexs:
     if cx.obligation in seen: continue
